@@ -156,7 +156,11 @@ def copy_vars(
         target
         ) -> None:
     """Copy variables, preserving levels."""
-    for var in source.vars:
+    # from the top level down, so that if `target`
+    # refuses a level (used by another variable),
+    # the variables declared until then leave
+    # no gap between the levels of `target`
+    for var in sorted(source.vars, key=source.level_of_var):
         level = source.level_of_var(var)
         target.add_var(var, level=level)
 
